@@ -153,10 +153,33 @@ def _cond_class(fn, it):
     return None
 
 
+def race_values(fn):
+    """names of the locals compared with a register in the guard of a signature write (`h < get_value(k)`): the item's
+    current point, the only sound lower bound of what the item can still offer"""
+    t = tree_of(fn)
+    out = set()
+    for (w, _f, idx) in writes_to_self(fn, "signature"):
+        for it in nf.control_facts(t, w):
+            if it[0] == "cmp" and it[2] == "<" and re.match(r"^self\.%s\.get_value\(.*\)$" % TRACKER, it[3]) and re.match(r"^\w+$", it[1]):
+                out.add(it[1])
+    return out
+
+
+def _pruned_on(cond):
+    """the value compared with the tracker maximum in an exit condition `max <= v` / `max < v`"""
+    return cond[3] if cond and cond[0] == "cmp" else None
+
+
 def _exit_rule(ctx, facts, fid):
     fn = facts.fn(fid)
     t = tree_of(fn)
     n_inst = 0
+    RV = race_values(fn)
+
+    def sound_bound(cond):
+        """the pruning comparison is made on the item's current point (a race value), not on something else of the item"""
+        v = _pruned_on(cond)
+        return v is None or not RV or v in RV
     # (a) exits of every user loop
     for loop in [n for n in t.nodes if n["k"] == "Loop"]:
         for (kind, node) in loop_exits(fn, loop):
@@ -188,6 +211,9 @@ def _exit_rule(ctx, facts, fid):
                     ctx.violation("EXIT", fid, "break out of the loop over items", where,
                                   "this `break` leaves the loop over the items (taken when %s): the items that follow are never offered their point, "
                                   "so the signature depends on the order in which the container yields them" % (conds[:1],))
+                elif inner == "MAX(exit)" and not sound_bound(conds[0]):
+                    ctx.violation("EXIT", fid, "race left on a value that is not its current point", where,
+                                  "this break compares `%s` with the maximum, which is not the item's current point (%s)" % (_pruned_on(conds[0]), ", ".join(sorted(RV))))
                 elif inner == "MAX(exit)":
                     ctx.ok("EXIT", fid, "break on %s" % (conds[0],), where)
                 else:
@@ -205,7 +231,11 @@ def _exit_rule(ctx, facts, fid):
         conds = nf.all_conditions(t, node, stop=tgt)
         n_inst += 1
         inner = _cond_class(fn, conds[0]) if conds else None
-        if inner == "MAX(exit)":
+        if inner == "MAX(exit)" and not sound_bound(conds[0]):
+            ctx.violation("EXIT", fid, "item pruned on a value that is not its current point", hirq.loc(node),
+                          "`%s` abandons the item when %s, but `%s` is not the item's current point (%s): the next point of the item can still lie below the "
+                          "maximum, so which items enter the signature depends on when they arrive" % (node["k"].lower(), conds[0], _pruned_on(conds[0]), ", ".join(sorted(RV))))
+        elif inner == "MAX(exit)":
             ctx.ok("EXIT", fid, "%s when %s" % (node["k"].lower(), conds[0]), hirq.loc(node))
         else:
             ctx.violation("EXIT", fid, "item skipped", hirq.loc(node),
